@@ -534,6 +534,18 @@ class Hessdiag(Derivative):
         options.pop('n', None)
         super(Hessdiag, self).__init__(f, step=step, method=method, n=2, order=order, **options)
 
+    def _get_functions(self, args, kwds):
+
+        fun = self.fun
+
+        def export_fun(x):
+            value = fun(x, *args, **kwds)
+            if isinstance(value, np.ndarray) and value.ndim > 0 and value.size == 1:
+                value = value.reshape(())  # a scalar function may return a length-1 array
+            return value
+
+        return self.fd_rule.diff, export_fun
+
     def __call__(self, x, *args, **kwds):
         return super(Hessdiag, self).__call__(np.atleast_1d(x), *args, **kwds)
 
